@@ -197,32 +197,38 @@ Definition s_Header_title : str := [72;101;97;100;101;114].   (* "header".title(
 Definition ext_class_name (e : soap_ext) : str :=               (* local_name(ext.qname).title() *)
   match e with SoapBody _ _ _ => m_body | SoapHeader _ _ _ => s_Header_title end.
 
-(* build_envelope_class *)
+(* build_envelope_class: the attrs one extension element contributes ... *)
+Definition ext_attrs (d : definitions) (style : str) (operation : option str) (ptm : pt_msg) (bm : b_msg)
+           (e : soap_ext) : option (list attr) :=
+  match e with
+  | SoapBody _ bodyns _ =>
+      if str_eqb style m_rpc && str_eqb (ext_class_name e) m_body
+      then Some (map_port_type_message operation ptm bodyns)
+      else map_binding_message_parts d (ptm_message ptm) bm e
+  | SoapHeader _ _ _ => map_binding_message_parts d (ptm_message ptm) bm e
+  end.
+
+(* ... and one turn of its loop over binding_message.extended_elements *)
+Definition envelope_step (d : definitions) (style : str) (operation : option str) (ptm : pt_msg) (bm : b_msg)
+           (acc : option aclass) (e : soap_ext) : option aclass :=
+  match acc with
+  | None => None
+  | Some target =>
+      let class_name := ext_class_name e in
+      let target1 := build_inner_class target class_name None in
+      match ext_attrs d style operation ptm bm e with
+      | None => None
+      | Some attrs => Some (update_inner target1 class_name (extend_attrs attrs))
+      end
+  end.
+
 Definition build_envelope_class (d : definitions) (bm : b_msg) (optm : option pt_msg) (name : str)
            (style : str) (namespace : option str) (operation : option str) : option aclass :=
   match optm with
   | None => None                          (* port_type_message.message on None *)
   | Some ptm =>
       let target := AClass (build_qname (d_tns d) name) (Some m_envelope) TagBindingMessage namespace [] [] in
-      fold_left (fun (acc : option aclass) (e : soap_ext) =>
-        match acc with
-        | None => None
-        | Some target =>
-            let class_name := ext_class_name e in
-            let target1 := build_inner_class target class_name None in
-            let oattrs :=
-              match e with
-              | SoapBody _ bodyns _ =>
-                  if str_eqb style m_rpc && str_eqb class_name m_body
-                  then Some (map_port_type_message operation ptm bodyns)
-                  else map_binding_message_parts d (ptm_message ptm) bm e
-              | SoapHeader _ _ _ => map_binding_message_parts d (ptm_message ptm) bm e
-              end in
-            match oattrs with
-            | None => None
-            | Some attrs => Some (update_inner target1 class_name (extend_attrs attrs))
-            end
-        end) (bm_exts bm) (Some target)
+      fold_left (envelope_step d style operation ptm bm) (bm_exts bm) (Some target)
   end.
 
 (* build_message_class *)
@@ -284,37 +290,40 @@ Definition build_envelope_fault (d : definitions) (po : pt_operation) (target : 
   | _, _ => None
   end.
 
-(* map_binding_operation_messages *)
+(* map_binding_operation_messages: one turn of its loop (input or output) ... *)
+Definition map_one_message (d : definitions) (po : pt_operation) (name : str) (style : str) (namespace : option str)
+           (suffix : str) (bm : b_msg) (optm : option pt_msg) (operation : option str) (is_output : bool)
+  : option (list aclass) :=
+  let msgs := if str_eqb style m_rpc
+              then match build_message_class d optm with Some c => Some [c] | None => None end
+              else Some [] in
+  match msgs with
+  | None => None
+  | Some ms =>
+      match build_envelope_class d bm optm (name ++ [95] ++ suffix) style namespace operation with
+      | None => None
+      | Some target =>
+          if is_output then
+            match build_envelope_fault d po target with
+            | Some t => Some (ms ++ [t])
+            | None => None
+            end
+          else Some (ms ++ [target])
+      end
+  end.
+
+(* ... and the whole *)
 Definition map_binding_operation_messages (d : definitions) (bo : b_operation) (po : pt_operation)
            (name : str) (style : str) (namespace : option str) : option (list aclass) :=
-  let one (suffix : str) (bm : b_msg) (optm : option pt_msg) (operation : option str) (is_output : bool)
-      : option (list aclass) :=
-    let msgs := if str_eqb style m_rpc
-                then match build_message_class d optm with Some c => Some [c] | None => None end
-                else Some [] in
-    match msgs with
-    | None => None
-    | Some ms =>
-        match build_envelope_class d bm optm (name ++ [95] ++ suffix) style namespace operation with
-        | None => None
-        | Some target =>
-            if is_output then
-              match build_envelope_fault d po target with
-              | Some t => Some (ms ++ [t])
-              | None => None
-              end
-            else Some (ms ++ [target])
-        end
-    end in
   let i := match bo_input bo with
-           | Some bm => one m_input bm (pto_input po) (Some (bo_name bo)) false
+           | Some bm => map_one_message d po name style namespace m_input bm (pto_input po) (Some (bo_name bo)) false
            | None => Some []
            end in
   match i with
   | None => None
   | Some ci =>
       match (match bo_output bo with
-             | Some bm => one m_output bm (pto_output po) None true
+             | Some bm => map_one_message d po name style namespace m_output bm (pto_output po) None true
              | None => Some []
              end) with
       | None => None
